@@ -406,6 +406,7 @@ DEFAULT_HAVOC = [
     r"^error::Error::", r"^Error::",
     r"^(bytes::)?(BytesMut|Bytes)::", r"^bytes::", r"^bincode::", r"^<.* as (bytes::)?(BufMut|Buf)>::",
     r"^<(bytes::)?(BytesMut|Bytes) as .*>::", r"^(bincode::)?(serialize|serialize_into|serialized_size|deserialize)$",
+    r"^<\[u8\] as (std::ops::)?Index(Mut)?<.*>>::index(_mut)?$", r"^core::slice::(<impl \[u8\]>::)?(copy_from_slice|split_at|split_at_mut|fill|to_vec)$",
     r"^std::time::", r"^SystemTime::", r"^(tokio::time::)?Instant::", r"^Duration::",
 ]
 
@@ -567,3 +568,11 @@ def result_of(ex, st):
     ready, payload = poll_payload(ex, st, st.result)
     d = ex.get_discr(st, payload).t
     return ready, d == BV64(0), payload
+
+
+def arc_payload(st, arc):
+    """payload object of a modelled Arc (pseudo-field 7001), whether still by value or already behind its shared cell"""
+    v = arc.fields[(None, 7001)]
+    if isinstance(v, Ref):
+        v = st.mem[v.cell]
+    return v
